@@ -135,7 +135,8 @@ func (c14) Gen(r *Rng, tier string, run int) *Trace {
 			q := []Op{
 				{Obj: s0, M: "Valid"}, {Obj: s0, M: "String"}, {Obj: s0, M: "Unmarshal"},
 				{Obj: s0, M: "IsEqual", Args: []Val{vRef(other, r.Intn(nDress))}},
-			}[r.Intn(4)]
+				{Obj: s0, M: "IsEqual", Args: []Val{vRef(s0, r.Intn(nDress))}},
+			}[r.Intn(5)]
 			q.Tag = "q"
 			g.emit(q, false)
 		case 12:
